@@ -33,7 +33,7 @@ def _push_features(h):
                                 sh.get("op") if sh.get("k") == "Binary" else None,
                                 strip(sh.get("l", {})).get("name") if sh.get("k") == "Binary" else None,
                                 lit_value(sh.get("r", {})) if sh.get("k") == "Binary" else None,
-                                local_name(r["r"]))
+                                _bits_role(body, r["r"]))
     for a in exprs(body, "AssignOp"):
         l = strip(a["l"])
         if l.get("k") == "Field" and l["name"] == "len":
@@ -75,7 +75,16 @@ def _pop_features(h):
     return f
 
 
-WANT_PUSH = {"bits": {"Array": 0, "Map": 1}, "combine": ("BitOr", "Shl", "layers", 1, "layer"), "len": ("Add", 1)}
+WANT_PUSH = {"bits": {"Array": 0, "Map": 1}, "combine": ("BitOr", "Shl", "layers", 1, "<bit of the pushed layer>"), "len": ("Add", 1)}
+
+
+def _bits_role(body, e):
+    """the or-ed operand is the local bound to the Array->0 / Map->1 table (named by role, not by spelling)"""
+    nm = local_name(e)
+    ini = let_init(body, nm) if nm else None
+    if ini is not None and strip(ini).get("k") == "Match" and all(isinstance(lit_value(a["body"]), int) for a in strip(ini)["arms"]):
+        return "<bit of the pushed layer>"
+    return nm
 WANT_POP = {"guard": ("Gt", "len", 0), "empty": ["core::option::Option::None"], "test": ("BitAnd", 1, "Eq", 0),
             "len": ("Sub", 1), "layers": ("Shr", 1), "true_is": "Array", "false_is": "Map"}
 
@@ -228,10 +237,13 @@ def rule_dup(F, R):
                         propagated = True
         R.check(propagated, rule, fn, "duplicate-name error of add_field_full is propagated with `?`",
                 "a dropped Result silently keeps the first definition", c["sp"])
-        R.check(local_name(c["recv"]) == "builder" if c["k"] == "MethodCall" else True, rule, fn,
+        ret_ = tail(h["body"])
+        returned = local_name(ret_["args"][0]) if ret_.get("k") == "Call" and ret_.get("args") else None
+        R.check((returned is not None and local_name(c["recv"]) == returned) if c["k"] == "MethodCall" else True, rule, fn,
                 "fields are added to the builder that is returned", where=c["sp"])
     t = tail(h["body"])
-    ok = t.get("k") == "Call" and norm(t.get("callee", "")) == "core::result::Result::Ok" and local_name(t["args"][0]) == "builder"
+    ok = t.get("k") == "Call" and norm(t.get("callee", "")) == "core::result::Result::Ok" and local_name(t["args"][0]) is not None and \
+        "SchemeBuilder" in norm(t["args"][0].get("ty", ""))
     R.check(ok, rule, fn, "the visitor returns that builder", where=h["span"])
 
 
